@@ -34,6 +34,9 @@ Holds(r, ev) ==
       [] r = "TimeFmt" -> k = "timefmt" /\ live =>
                 /\ o.ok /\ o.off = c.off /\ o.h12 = c.h12 /\ o.str = c.s
                 /\ o.api_ok /\ o.api_off = c.off /\ o.api_str = FormatTime(c.off, FALSE)
+                (* two times are equal exactly when they denote the same instant; order follows the instant *)
+                /\ o.eq_runs = << <<c.off, c.off>> >>
+                /\ o.ge_runs = << <<MinOff, c.off>> >>
       [] r = "RangeRow" -> k = "range_row" /\ live =>
                 /\ o.tested = 4320
                 /\ o.ok_runs = << <<c.off, MaxOff>> >>
